@@ -173,7 +173,7 @@ func init() {
 }
 
 func init() {
-	props["C15"] = &propCfg{Level: "exploration", QuickRuns: 3000, QuickS: 60, ThoroughRuns: 3000000, ThoroughS: 1500,
+	props["C15"] = &propCfg{Level: "exploration", QuickRuns: 8000, QuickS: 90, ThoroughRuns: 3000000, ThoroughS: 1500,
 		Rule: "one case = 1..3 vertex tables (several may share a label) and 0..3 link tables in either direction (rows with missing, empty, non-string and dangling link fields), a mapping of tables to id prefixes/labels and link tables to edge types, and a typed traversal from the C01 generator biased to leading hasLabel/id starts; tables are served by the real SimpleTableServicer over DriverPreLoad through the simulated transport with seeded per-message latency, under a seeded schedule and scaled buffers. Judged: refql on the graph materialised from tables+mapping (exact multiset / bound arithmetic), stream closure, refusal of write calls. non-trivial = non-empty reference result; distinct = distinct (tables, mapping, program, configuration, decision-sequence hash)",
 		Assumptions: []string{"edge ids follow the driver's own convention (from-label-to), which the property does not fix; repeated links within one link table (same id) are not generated", "gripper.DriverCache is not in the loop: at this commit it lacks GetFieldLinks, does not implement gripper.Driver and cannot be served by SimpleTableServicer", "the gRPC transport is the in-process simnet"}}
 }
